@@ -190,11 +190,14 @@ struct VMeas : public LinearMeasurementModel {
 // ends with everything switched off again:
 //   kfpv n exo ncalls { hand F Q [G g] nskip {name status}* wmode k means covs outw }*      name: 0 prediction 1 state 2 exogenous
 static std::string kfpv(Toks& t) {
-    long n = t.nat(); bool exo = t.flag();
+    long n = t.nat(); long exo = t.nat();   // 1: exogenous model attached before the KFPrediction is built, 2: afterwards through getStateModel()
+    if (exo < 0 || exo > 2) throw vh::BadArgs("exo");
     VState* vs = new VState(n); VExo* ve = nullptr;
     std::unique_ptr<LinearStateModel> sm(vs);
-    if (exo) { ve = new VExo; ve->G_ = MatrixXd::Zero(n, n); ve->g_ = VectorXd::Zero(n); vs->add_exogenous_model(std::unique_ptr<ExogenousModel>(ve)); }
+    if (exo) { ve = new VExo; ve->G_ = MatrixXd::Zero(n, n); ve->g_ = VectorXd::Zero(n); }
+    if (exo == 1) vs->add_exogenous_model(std::unique_ptr<ExogenousModel>(ve));
     std::unique_ptr<KFPrediction> pp(new KFPrediction(std::move(sm)));
+    if (exo == 2) pp->getStateModel().add_exogenous_model(std::unique_ptr<ExogenousModel>(ve));
     long calls = t.nat();
     Out o; o.s("ok");
     static const char* names[3] = {"prediction", "state", "exogenous"};
